@@ -1,5 +1,18 @@
 """Child process of the C08 harness: runs one complete analysis and prints a JSON digest of every artefact.
-usage: c08_child.py <json params>  (PYTHONHASHSEED is set by the parent)"""
+usage: c08_child.py <json params>  (PYTHONHASHSEED is set by the parent)
+
+Dimensions of a case beyond the table (every one makes a result file or a returned value sensitive to a code path
+that the seeded generator or a hash-ordered container can reach):
+  level_cols    roll-up level columns of the table (ModifiedPeptide / Precursor / PeptideGroup result files)
+  ncoll         1 or 2 collections handed to brew / assign_confidence together (prefixes "a", "b")
+  fasta_decoys  a second protein-level run with a FASTA that holds the decoy proteins (group_with_decoys path), and a
+                third one on the same FASTA with coarsely rounded scores
+  ties          a third protein-level run with coarsely rounded scores: the seeded tie-breaking shuffle of
+                groupby_max and the decoy/target pairing then decide which peptide represents a protein
+  ensemble      the fed-back models also score as an ensemble (mean over the models in brew's order)
+  cli           the same input through the command line entry point `mokapot.mokapot.main` (with --save_models)
+"""
+import contextlib
 import hashlib
 import io
 import json
@@ -16,45 +29,117 @@ def sha(b: bytes) -> str:
     return hashlib.sha256(b).hexdigest()[:20]
 
 
-def analysis(params, workdir: Path, models_in=None, model_order=None, proteins_in=None, keep=None):
-    """returns (digest dict, models). All randomness derives from params['seed']."""
-    import numpy as np
-    import mokapot
+def make_fasta_with_decoys(n_peptides: int, n_proteins: int, path, shared_every=5):
+    """variant of mkdata.make_fasta (same target proteins) that also holds, for every target protein, the decoy
+    protein `decoy_<name>` made of the reversed letter cores — the decoy peptides of the PSM table"""
     import mkdata
-    import pipeline as P
 
-    r = random.Random(params["data_seed"])
-    df = mkdata.make_psm_table(r, n_spectra=params["n_spectra"], max_per_spectrum=2, n_feat=4, label_enc="pm1",
+    prots = {j: [] for j in range(n_proteins)}
+    for p in range(n_peptides):
+        prots[p % n_proteins].append(p)
+        if shared_every and p % shared_every == 0:
+            prots[(p + 1) % n_proteins].append(p)
+    lines = []
+    for j, peps in prots.items():
+        seq = "".join(mkdata.pep_letters(p) + "K" for p in peps) + "WWWWWWK"
+        lines.append(f">sp|PROT{j}|test protein {j}\n{seq}\n")
+    for j, peps in prots.items():
+        seq = "".join(mkdata.pep_letters(p)[::-1] + "K" for p in peps) + "YYYYYYK"
+        lines.append(f">decoy_sp|PROT{j}|test protein {j}\n{seq}\n")
+    Path(path).write_text("".join(lines))
+    return path
+
+
+def make_table(params, r, n_spectra):
+    import mkdata
+
+    df = mkdata.make_psm_table(r, n_spectra=n_spectra, max_per_spectrum=2, n_feat=4, label_enc="pm1",
                                optional=("ExpMass",), signal=4.0, letter_peptides=True, n_peptides=params["n_pep"],
-                               integer_scores=False)
-    workdir.mkdir(parents=True, exist_ok=True)
+                               integer_scores=False, level_cols=tuple(params.get("level_cols", ())))
     # two feature columns carry a missing value, so that the feature-dropping path of read_pin runs
     # (its result must not depend on set/hash iteration order)
     df["lnrsp"] = [r.gauss(0, 1) for _ in range(len(df))]
     df["mass_err"] = [r.gauss(0, 1) for _ in range(len(df))]
     df.loc[r.randrange(len(df)), "lnrsp"] = float("nan")
     df.loc[r.randrange(len(df)), "mass_err"] = float("nan")
-    cols = [c for c in df.columns if c not in ("Peptide", "Proteins")] + ["Peptide", "Proteins"]
-    df = df[cols]
-    p = mkdata.write_table(df, workdir / f"in.{params['fmt']}")
+    # every third peptide is "weak": its target PSMs score like decoys, so that the decoy counterpart wins a fair
+    # share of the protein pairs (only then do the seeded decoy/target pairing and the seeded tie-breaking shuffle of
+    # the protein level show in the result files)
+    weak = {mkdata.pep_letters(p) + "K" for p in range(params["n_pep"]) if p % 3 == 0}
+    for i in df.index[df["Peptide"].isin(weak)]:
+        for c in [c for c in df.columns if c.startswith("feat")]:
+            df.loc[i, c] = r.gauss(0.0, 1.0)
+    tail = ["Peptide"] + [c for c in ("ModifiedPeptide", "Precursor", "PeptideGroup") if c in df.columns] + ["Proteins"]
+    cols = [c for c in df.columns if c not in tail] + tail
+    return df[cols]
+
+
+def files_digest(digest, key, out):
+    for f in sorted(Path(out).iterdir()):
+        digest[f"{key}:{f.name}"] = sha(f.read_bytes())
+        if f.name.endswith("decoys.proteins"):      # how many protein pairs were won by the decoy (sensitivity tally)
+            digest[f"n_decoy_proteins:{key}:{f.name}"] = max(0, len(f.read_bytes().splitlines()) - 1)
+
+
+def confidence_run(params, paths, scores, descs, out, prot, rng):
+    import numpy as np
+    import mokapot
+    import mkdata
+
+    out.mkdir(exist_ok=True)
+    dsets = [mkdata.read_dataset(p) for p in paths]
+    prefixes = [None] if len(paths) == 1 else ["a", "b"][:len(paths)]
+    with contextlib.redirect_stdout(io.StringIO()), contextlib.redirect_stderr(io.StringIO()):
+        mokapot.assign_confidence(dsets, max_workers=params["workers"],
+                                  scores=[np.asarray(s, dtype=float).ravel() for s in scores],
+                                  descs=list(descs), dest_dir=out, prefixes=prefixes, decoys=True, proteins=prot,
+                                  rng=rng, peps_algorithm=params.get("peps", "qvality"))
+
+
+def extra_run(digest, key, params, paths, scores, descs, out, prot):
+    """an additional protein-level run; when the real code refuses it (e.g. a PEP estimator that needs more decoy
+    proteins than the table has) the exception is the artefact that must be the same in every run"""
+    try:
+        # the additional runs use the fast PEP estimator (the case's own choice is exercised by the main run)
+        confidence_run(params if key == "file" else dict(params, peps="qvality"), paths, scores, descs, out, prot,
+                       params["seed"])
+    except Exception as e:
+        digest[f"{key}:raised"] = f"{type(e).__name__}: {str(e)[:120]}"
+    files_digest(digest, key, out)
+
+
+def analysis(params, workdir: Path, models_in=None, model_order=None, proteins_in=None, keep=None):
+    """returns (digest dict, models). All randomness derives from params['seed']."""
+    import numpy as np
+    import mokapot
+    import mkdata
+
+    r = random.Random(params["data_seed"])
+    workdir.mkdir(parents=True, exist_ok=True)
+    ncoll = params.get("ncoll", 1)
+    paths = []
+    for c in range(ncoll):
+        df = make_table(params, r, params["n_spectra"] if c == 0 else max(60, (2 * params["n_spectra"]) // 3))
+        paths.append(mkdata.write_table(df, workdir / f"in{c}.{params['fmt']}"))
     # 1-2 unique peptides per protein, so that decoy proteins do win some pairs (the decoy side of the picked-protein
     # step, which pairs decoy peptides with target peptides of equal composition, must show in the result files)
-    fasta = mkdata.make_fasta(params["n_pep"], max(3, (3 * params["n_pep"]) // 4), workdir / "db.fasta", shared_every=7)
+    n_prot = max(3, (3 * params["n_pep"]) // 4)
+    fasta = mkdata.make_fasta(params["n_pep"], n_prot, workdir / "db.fasta", shared_every=7)
     digest = {}
     # deliberately perturb the global numpy state: a seeded analysis must not depend on it
     np.random.seed(params.get("global_noise", 0))
-    ds = mkdata.read_dataset(p, max_workers=params["workers"])
-    hashes = None
-    folds = mkdata.read_dataset(p)._split(params["folds"], np.random.default_rng(params["seed"]))
-    digest["feature_columns"] = list(ds.feature_columns)
-    digest["folds"] = sha(json.dumps([list(map(int, f)) for f in folds]).encode())
+    dsets = [mkdata.read_dataset(p, max_workers=params["workers"]) for p in paths]
+    split_rng = np.random.default_rng(params["seed"])
+    folds = [mkdata.read_dataset(p)._split(params["folds"], split_rng) for p in paths]
+    digest["feature_columns"] = [list(ds.feature_columns) for ds in dsets]
+    digest["folds"] = sha(json.dumps([[list(map(int, f)) for f in fo] for fo in folds]).encode())
     if models_in is None:
         model = mokapot.PercolatorModel(train_fdr=0.25, max_iter=2, rng=params["seed"], override=True)
     else:
         model = [models_in[i] for i in model_order]
-    _, models, scores, descs = mokapot.brew(ds, model, test_fdr=0.25, folds=params["folds"],
-                                            max_workers=params["workers"], rng=params["seed"])
-    digest["scores"] = sha(np.ascontiguousarray(np.asarray(scores[0], dtype=float)).tobytes())
+    _, models, scores, descs = mokapot.brew(dsets if ncoll > 1 else dsets[0], model, test_fdr=0.25,
+                                            folds=params["folds"], max_workers=params["workers"], rng=params["seed"])
+    digest["scores"] = sha(b"".join(np.ascontiguousarray(np.asarray(s, dtype=float)).tobytes() for s in scores))
     digest["descs"] = [bool(x) for x in descs]
     coefs = []
     for m in models:
@@ -65,23 +150,83 @@ def analysis(params, workdir: Path, models_in=None, model_order=None, proteins_i
             coefs.append(b"untrained")
     digest["coefs"] = sha(b"".join(coefs))
     digest["model_folds"] = [int(m.fold) for m in models]
+    # the state of every returned model's private generator (a copy of brew's, advanced by the fit's permutation)
+    digest["model_rng"] = sha(json.dumps([m.rng.bit_generator.state for m in models], sort_keys=True, default=str).encode())
+    if models_in is not None and params.get("ensemble") and all(m.is_trained for m in models_in):
+        ds_e = [mkdata.read_dataset(p) for p in paths]
+        _, _, sc_e, _ = mokapot.brew(ds_e if ncoll > 1 else ds_e[0], [models_in[i] for i in model_order],
+                                     test_fdr=0.25, folds=params["folds"], max_workers=params["workers"],
+                                     rng=params["seed"], ensemble=True)
+        digest["scores_ensemble"] = sha(b"".join(np.ascontiguousarray(np.asarray(s, dtype=float)).tobytes() for s in sc_e))
     # the same Proteins object may be reused for a second analysis in one process (it must not carry state over)
     prot = proteins_in if proteins_in is not None else mokapot.read_fasta(fasta, missed_cleavages=0, min_length=4)
     if keep is not None:
         keep["proteins"] = prot
+        keep["paths"], keep["scores"], keep["descs"] = paths, scores, descs
     digest["fasta"] = sha(json.dumps([sorted(prot.peptide_map.items()), sorted(prot.protein_map.items()),
-                                      sorted((k, sorted(v.split("; "))) for k, v in prot.shared_peptides.items())]).encode())
-    out = workdir / "out"
-    out.mkdir(exist_ok=True)
-    ds2 = mkdata.read_dataset(p)
-    import contextlib
-    with contextlib.redirect_stdout(io.StringIO()), contextlib.redirect_stderr(io.StringIO()):
-        mokapot.assign_confidence([ds2], max_workers=params["workers"], scores=[np.asarray(scores[0], dtype=float).ravel()],
-                                  descs=list(descs), dest_dir=out, prefixes=[None], decoys=True, proteins=prot,
-                                  rng=params["seed"], peps_algorithm=params.get("peps", "qvality"))
-    for f in sorted(out.iterdir()):
-        digest["file:" + f.name] = sha(f.read_bytes())
+                                      sorted(prot.shared_peptides.items())]).encode())   # value strings exactly (D38)
+    extra_run(digest, "file", params, paths, scores, descs, workdir / "out", prot)
+    if params.get("fasta_decoys"):
+        fasta2 = make_fasta_with_decoys(params["n_pep"], n_prot, workdir / "db_decoys.fasta", shared_every=7)
+        prot2 = mokapot.read_fasta(fasta2, missed_cleavages=0, min_length=4)
+        digest["fasta_decoys"] = sha(json.dumps([sorted(prot2.peptide_map.items()), sorted(prot2.protein_map.items()),
+                                                 sorted(prot2.shared_peptides.items()), bool(prot2.has_decoys)]).encode())
+        extra_run(digest, "file_fd", params, paths, scores, descs, workdir / "out_fd", prot2)
+        # ... and with tied scores, so that the seeded tie-breaking shuffle decides on this path too
+        extra_run(digest, "file_fd_ties", params, paths, tied_scores(scores), descs, workdir / "out_fd_ties", prot2)
+    if params.get("ties"):
+        extra_run(digest, "file_ties", params, paths, tied_scores(scores), descs, workdir / "out_ties", prot)
+    if params.get("cli") and models_in is None:
+        digest.update(cli_analysis(params, workdir, fasta))
     return digest, models
+
+
+def tied_scores(scores):
+    """scores rounded to whole numbers: many PSMs, peptides and proteins share a score"""
+    import numpy as np
+
+    return [np.round(np.asarray(s, dtype=float).ravel() * 1.5) for s in scores]
+
+
+def cli_analysis(params, workdir: Path, fasta):
+    """the command line entry point on a text copy of the first collection (plus the second, if any)"""
+    import logging
+    import numpy as np
+    import pandas as pd
+    import mokapot
+    from mokapot.mokapot import main as cli_main
+
+    r = random.Random(params["data_seed"])
+    pins = []
+    for c in range(params.get("ncoll", 1)):
+        df = make_table(params, r, params["n_spectra"] if c == 0 else max(60, (2 * params["n_spectra"]) // 3))
+        p = workdir / f"cli_in{c}.pin"
+        df.to_csv(p, sep="\t", index=False)
+        pins.append(p)
+    out = workdir / "cli_out"
+    args = [*map(str, pins), "--dest_dir", str(out), "--seed", str(params["seed"]), "--folds", str(params["folds"]),
+            "--max_workers", str(params["workers"]), "--proteins", str(fasta), "--missed_cleavages", "0",
+            "--min_length", "4", "--keep_decoys", "--train_fdr", "0.25", "--test_fdr", "0.25", "--max_iter", "2",
+            "--override", "--save_models", "--verbosity", "0", "--peps_algorithm", params.get("peps", "qvality")]
+    level = logging.root.manager.disable
+    # (no chdir: every output of the tool goes to --dest_dir, and the parent harness runs this in-process while
+    # its worker threads spawn the fresh interpreters)
+    with contextlib.redirect_stdout(io.StringIO()), contextlib.redirect_stderr(io.StringIO()):
+        try:
+            cli_main(args)
+        finally:
+            logging.disable(level)
+    d = {}
+    for f in sorted(out.iterdir()):
+        if f.suffix == ".pkl":
+            m = mokapot.load_model(f)
+            est = getattr(m.estimator, "best_estimator_", m.estimator)
+            blob = (np.asarray(est.coef_, dtype=float).tobytes() + np.asarray(est.intercept_, dtype=float).tobytes()
+                    if hasattr(est, "coef_") else b"untrained")
+            d[f"cli:{f.name}"] = sha(blob + json.dumps(m.rng.bit_generator.state, sort_keys=True, default=str).encode())
+        else:
+            d[f"cli:{f.name}"] = sha(f.read_bytes())
+    return d
 
 
 if __name__ == "__main__":
